@@ -56,18 +56,41 @@ impl JptCredentialValidator {
 
     let credential: &Credential<T> = &credential_token.credential;
 
-    Self::validate_credential::<T>(credential, options, fail_fast)?;
+    Self::validate_credential::<DOC, T>(credential, issuer, options, fail_fast)?;
 
     Ok(credential_token)
   }
 
-  pub(crate) fn validate_credential<T>(
+  /// Checks `credentialStatus` as `status_check` demands: a `RevocationTimeframe2024` or `RevocationBitmap2022` entry
+  /// is looked up in the revocation bitmap service of the issuer's DID document, every other type is unsupported.
+  fn check_status<DOC, T>(
     credential: &Credential<T>,
+    issuer: &DOC,
+    status_check: crate::validator::StatusCheck,
+  ) -> Result<(), JwtValidationError>
+  where
+    DOC: AsRef<CoreDocument>,
+  {
+    use crate::revocation::RevocationTimeframeStatus;
+    use crate::validator::JptCredentialValidatorUtils;
+
+    match &credential.credential_status {
+      Some(status) if status.type_ == RevocationTimeframeStatus::TYPE => {
+        JptCredentialValidatorUtils::check_revocation_with_validity_timeframe_2024(credential, issuer, status_check)
+      }
+      _ => JwtCredentialValidatorUtils::check_status(credential, std::slice::from_ref(issuer), status_check),
+    }
+  }
+
+  pub(crate) fn validate_credential<DOC, T>(
+    credential: &Credential<T>,
+    issuer: &DOC,
     options: &JptCredentialValidationOptions,
     fail_fast: FailFast,
   ) -> Result<(), CompoundCredentialValidationError>
   where
     T: ToOwned<Owned = T> + serde::Serialize + serde::de::DeserializeOwned,
+    DOC: AsRef<CoreDocument>,
   {
     // Run all single concern Credential validations in turn and fail immediately if `fail_fast` is true.
     let expiry_date_validation = std::iter::once_with(|| {
@@ -99,7 +122,10 @@ impl JptCredentialValidator {
     let validation_units_iter = issuance_date_validation
       .chain(expiry_date_validation)
       .chain(structure_validation)
-      .chain(subject_holder_validation);
+      .chain(subject_holder_validation)
+      .chain(std::iter::once_with(|| {
+        Self::check_status(credential, issuer, options.status)
+      }));
 
     let validation_units_error_iter = validation_units_iter.filter_map(|result| result.err());
     let validation_errors: Vec<JwtValidationError> = match fail_fast {
